@@ -15,6 +15,7 @@
 #include <cmath>
 #include <limits>
 #include <set>
+#include <thread>
 
 using namespace verif;
 
@@ -433,6 +434,72 @@ void atomicMinMax(Case& c) {
   }
 }
 
+// Many targets, one offer per (thread, target), all threads walking the targets in the same order and re-aligned
+// every 4096 targets: the offers to one target race with each other, and the extreme is equally likely to come from the
+// thread whose compare-exchange loses. A lost update stays visible because nothing is offered to the target afterwards.
+template <typename T>
+void atomicSlots(Case& c) {
+  unsigned threads = c.maxT >= 2 ? 2 + (unsigned)c.rng.below(std::min(c.maxT, 16u) - 1) : 1;
+  size_t S         = c.rng.pick({(size_t)3000, (size_t)20000, (size_t)60000});
+  bool isMin       = c.rng.below(2);
+  int flavour      = (int)c.rng.below(4);
+  uint64_t salt    = c.rng.next();
+  bool bigInit     = c.rng.below(2);
+  c.begin("atomicMinMax", J().kv("variant", "slots").kv("type", tn<T>()).kv("targets", (uint64_t)S).kv("threads", threads)
+                              .kv("op", isMin ? "atomicMin" : "atomicMax").kv("flavour", flavour));
+  c.sig = std::string("atomicMinMax|slots|") + tn<T>() + (isMin ? "|min" : "|max") + "|f" + std::to_string(flavour) + "|S" +
+          std::to_string(S) + "@" + std::to_string(threads);
+  auto value = [&](unsigned t, size_t sl) {
+    Rng r(verif::mix(salt, (uint64_t)t * S + sl));
+    return genVal<T>(r, flavour);
+  };
+  std::vector<std::atomic<T>> slots(S);
+  std::vector<T> model(S);
+  for (size_t sl = 0; sl < S; ++sl) {
+    Rng r(verif::mix(salt ^ 0x5151, sl));
+    T init = bigInit ? (isMin ? std::numeric_limits<T>::max() : std::numeric_limits<T>::lowest()) : genVal<T>(r, flavour);
+    slots[sl].store(init, std::memory_order_relaxed);
+    model[sl] = init;
+    for (unsigned t = 0; t < threads; ++t) {
+      T v       = value(t, sl);
+      model[sl] = isMin ? (v < model[sl] ? v : model[sl]) : (v > model[sl] ? v : model[sl]);
+    }
+  }
+  std::atomic<unsigned> arrived{0};
+  std::atomic<unsigned> workers{0};
+  galois::setActiveThreads(threads);
+  galois::on_each([&](unsigned tid, unsigned numT) {
+    workers.fetch_add(1, std::memory_order_relaxed);
+    unsigned round = 0;
+    for (size_t sl = 0; sl < S; ++sl) {
+      if ((sl & 4095) == 0) { // re-align the threads
+        ++round;
+        arrived.fetch_add(1, std::memory_order_relaxed);
+        while (arrived.load(std::memory_order_relaxed) < round * numT) {
+          verif::progress();
+          std::this_thread::yield();
+        }
+      }
+      T v = value(tid, sl);
+      if (isMin)
+        galois::atomicMin(slots[sl], v);
+      else
+        galois::atomicMax(slots[sl], v);
+    }
+  });
+  c.workersMax = std::max(c.workersMax, workers.load());
+  c.add("atomic_ops", (uint64_t)S * threads);
+  c.add("slot_targets", S);
+  for (size_t sl = 0; sl < S; ++sl) {
+    T fin = slots[sl].load(std::memory_order_relaxed);
+    if (fin != model[sl]) {
+      c.viol("wrong-final", J().kv("op", isMin ? "atomicMin" : "atomicMax").kv("type", tn<T>()).kv("got", show(fin))
+                                .kv("want", show(model[sl])).kv("target", (uint64_t)sl).kv("plan", "slots").kv("workers", threads));
+      return;
+    }
+  }
+}
+
 template <typename T>
 void atomicAddSub(Case& c) {
   constexpr bool fp = std::is_floating_point_v<T>, sg = std::is_signed_v<T>;
@@ -579,7 +646,16 @@ void run_bits(Case& c, int which) {
 
 void run_atomics(Case& c, int which) {
   unsigned t = (unsigned)c.rng.below(6);
-  if (which == 0) {
+  if (which == 0 && c.rng.below(3) == 0) {
+    switch (t) {
+    case 0: atomicSlots<int>(c); break;
+    case 1: atomicSlots<int64_t>(c); break;
+    case 2: atomicSlots<unsigned>(c); break;
+    case 3: atomicSlots<uint64_t>(c); break;
+    case 4: atomicSlots<float>(c); break;
+    default: atomicSlots<double>(c); break;
+    }
+  } else if (which == 0) {
     switch (t) {
     case 0: atomicMinMax<int>(c); break;
     case 1: atomicMinMax<int64_t>(c); break;
